@@ -144,7 +144,7 @@ main(int argc, char **argv)
                                 syms = realloc(syms, cap * sizeof(sym_t));
                         }
                         syms[nsyms].addr = a;
-                        snprintf(syms[nsyms].name, sizeof(syms[nsyms].name), "%s", nm);
+                        snprintf(syms[nsyms].name, sizeof(syms[nsyms].name), "%.63s", nm);
                         nsyms++;
                 }
         }
